@@ -501,6 +501,14 @@ def apply_repo(w, e, fi, clsbind, args, kwargs, s, closure=None, raw=False):
                 for (o, a), hv in heap.items():
                     if o == v:
                         pmap[("attr", P(n), a)] = hv
+    if sm is None and _structural_recursion(fi):
+        # a function that calls itself on the items of its argument only (a traversal of plain
+        # nested data): the inner call is one more application of the same function - its effects
+        # are those of the outer one, which is analysed; its value is the call term
+        s2 = s.copy()
+        s2.add(("ok", callterm))
+        s2.ev("call", site, callee, argterms, (), ("ok", callterm))
+        return [(s2, "val", callterm)]
     if sm is None:
         # recursive call (see Engine.summary): opaque
         s1 = s.copy()
@@ -652,6 +660,52 @@ def _param_names(t):
         for x in t:
             out |= _param_names(x)
     return out
+
+
+def _structural_recursion(fi):
+    """every call of the function to itself passes, as its only argument, an item of the
+    function's own (single) parameter: a loop / comprehension variable ranging over the parameter
+    (or its .items() / .values()), or a subscript of it"""
+    cached = getattr(fi, "_structural_recursion", None)
+    if cached is not None:
+        return cached
+    res = False
+    a = fi.node.args
+    params = [x.arg for x in a.posonlyargs + a.args]
+    if len(params) == 1 and not a.vararg and not a.kwarg and not a.kwonlyargs and fi.cls is None and fi.parent is None:
+        p0 = params[0]
+        name = fi.node.name
+
+        def over_param(it):
+            if isinstance(it, ast.Name) and it.id == p0:
+                return True
+            return isinstance(it, ast.Call) and isinstance(it.func, ast.Attribute) and it.func.attr in ("items", "values") and isinstance(it.func.value, ast.Name) and it.func.value.id == p0 and not it.args
+
+        item_vars = set()
+        rebound = False
+        for n in ast.walk(fi.node):
+            if isinstance(n, ast.comprehension) and over_param(n.iter):
+                item_vars |= {x.id for x in ast.walk(n.target) if isinstance(x, ast.Name)}
+            elif isinstance(n, ast.For) and over_param(n.iter):
+                item_vars |= {x.id for x in ast.walk(n.target) if isinstance(x, ast.Name)}
+            elif isinstance(n, ast.Name) and isinstance(n.ctx, ast.Store) and n.id == p0:
+                rebound = True
+        calls = [n for n in ast.walk(fi.node) if isinstance(n, ast.Call) and isinstance(n.func, ast.Name) and n.func.id == name]
+        ok = bool(calls) and not rebound
+        for c in calls:
+            if len(c.args) != 1 or c.keywords:
+                ok = False
+                break
+            arg = c.args[0]
+            if isinstance(arg, ast.Name) and arg.id in item_vars:
+                continue
+            if isinstance(arg, ast.Subscript) and isinstance(arg.value, ast.Name) and arg.value.id == p0:
+                continue
+            ok = False
+            break
+        res = ok
+    fi._structural_recursion = res
+    return res
 
 
 def _is_callable_term(t):
